@@ -146,10 +146,10 @@ def r12_5(run, model, mir):
 
 def run(run, model):
     mir = Mir(run.facts)
-    r12_1(run, model)
-    r12_2(run, model)
-    r12_4(run, model)
-    r12_5(run, model, mir)
+    run.try_rule(r12_1, model)
+    run.try_rule(r12_2, model)
+    run.try_rule(r12_4, model)
+    run.try_rule(r12_5, model, mir)
     # R12.3: no entropy in lexer / parser
     run.rule("R12.3", "lexing and parsing are deterministic: no hash-ordered iteration and no entropy source in the lexer/parser/cst/ast crates")
     bad = [c for c in mir.calls if c["file"].startswith(("crates/lexer/src", "crates/parser/src")) and re.search(r"std::collections::Hash(Map|Set)|RandomState|SystemTime|Instant::now|std::env::", c["callee"])]
